@@ -60,7 +60,8 @@ class MolQueryReader(object):
             t = 1
             try:
                 connected = self.RINGgroups[self.ReadGroupName(tree[i][1:])]
-            except KeyError:
+            except (KeyError, TypeError):
+                # TypeError: no group table was given at all
                 raise RINGReaderError("Unrecognized group name :'"
                                       + self.ReadGroupName(tree[i][1:])+"'")
             i += 1
